@@ -62,7 +62,18 @@ PROPS = {'C18': {'title': 'Inflights window is a bounded FIFO under resizing',
                            'storage_trait',
                            'raft_log',
                            'memstorage'],
-                     'S': ['top', 'prelude', 'pb', 'inflights', 'progress', 'quorum', 'tracker', 'log_unstable', 'storage_trait', 'raft_log', 'raft']},
+                     'S': ['top',
+                           'prelude',
+                           'pb',
+                           'inflights',
+                           'progress',
+                           'quorum',
+                           'tracker',
+                           'log_unstable',
+                           'storage_trait',
+                           'raft_log',
+                           'raft',
+                           'raw_node']},
          'body': {'P': ['inflights',
                         'progress',
                         'quorum',
@@ -75,7 +86,7 @@ PROPS = {'C18': {'title': 'Inflights window is a bounded FIFO under resizing',
                         'raft_log',
                         'memstorage'],
                   'S': []},
-         'cone': {'S': ['raft']},
+         'cone': {'S': ['raft', 'raw_node']},
          'modes': ['P', 'S'],
          'claim': 'PARTIAL',
          'decided': ['mode P (panic sites are proof obligations): every function of inflights, progress, quorum, tracker, confchange, log_unstable, raft_log, '
@@ -241,7 +252,7 @@ PROPS = {'C18': {'title': 'Inflights window is a bounded FIFO under resizing',
                          '(verif_ri_*)',
                          'specified helpers for std / protobuf calls (R9) and the three cut texts (R10) listed in the evidence file',
                          'VecDeque::front/back standard semantics'],
-         'cone': {'P': [], 'S': []},
+         'cone': {'P': [], 'S': ['raft']},
          'bounded': []},
  'C05': {'title': 'Log matching; leaders append-only; committed prefix immutable',
          'modules': ['top', 'prelude', 'pb', 'inflights', 'progress', 'quorum', 'tracker', 'log_unstable', 'storage_trait', 'raft_log', 'raft'],
@@ -302,7 +313,7 @@ PROPS = {'C18': {'title': 'Inflights window is a bounded FIFO under resizing',
                            'raft',
                            'raft_conf']},
          'body': {'P': ['confchange'], 'S': []},
-         'cone': {'P': ['quorum', 'tracker'], 'S': ['raft_conf']},
+         'cone': {'P': ['quorum', 'tracker'], 'S': ['raft_conf', 'pb']},
          'modes': ['P', 'S'],
          'claim': 'PROOF for Changer::{simple, enter_joint, leave_joint}, ProgressTracker::apply_conf, confchange::restore (partial correctness: IF it '
                   'succeeds it reproduces the configuration the ConfState describes) and the quorum-overlap lemmas; Configuration::to_conf_state is not under '
